@@ -65,6 +65,22 @@ def _register():
             REC.append(None)
             return common.CUR['ctx'].bool('leaf.rec3.' + self.match)
 
+    @policy.register('rec3c')
+    class Rec3Child(Rec4):
+        """3-argument child of a 4-argument parent."""
+
+        def __call__(self, target, creds, enforcer):
+            REC.append(None)
+            return common.CUR['ctx'].bool('leaf.rec3c.' + self.match)
+
+    @policy.register('rec4c')
+    class Rec4Child(Rec3):
+        """4-argument child of a 3-argument parent."""
+
+        def __call__(self, target, creds, enforcer, current_rule=None):
+            REC.append(current_rule)
+            return common.CUR['ctx'].bool('leaf.rec4c.' + self.match)
+
     @policy.register('slot')
     class Slot(_checks.Check):
         """Leaf whose actual check is chosen (lazily) by the solver."""
@@ -96,7 +112,8 @@ def run_alias(ctx, templates, dflt):
     _register()
     k = len(templates)
     names = ['n%d' % i for i in range(k)]
-    options = (['role:r0', 'role:r1', 'rec4:a', 'rec3:b'] +
+    options = (['role:r0', 'role:r1', 'rec4:a', 'rec3:b', 'rec3c:c',
+                'rec4c:d'] +
                ['rule:%s' % n for n in names] + ['rule:undef'])
     SLOTS.clear()
     slot = {}
@@ -154,6 +171,10 @@ def run_alias(ctx, templates, dflt):
                 return ctx.zvar('leaf.rec4.a')
             if opt == 'rec3:b':
                 return ctx.zvar('leaf.rec3.b')
+            if opt == 'rec3c:c':
+                return ctx.zvar('leaf.rec3c.c')
+            if opt == 'rec4c:d':
+                return ctx.zvar('leaf.rec4c.d')
             if opt == 'rule:undef':
                 if dflt == 'name':
                     return den(0, depth - 1)
